@@ -92,7 +92,9 @@ func (g *GettyRemoting) sendAsync(session getty.Session, msg message.RpcMessage,
 	}
 	_, _, err = session.WritePkg(msg, time.Duration(0))
 	if err != nil {
-		g.futures.Delete(msg.ID)
+		if callback != nil {
+			g.futures.Delete(msg.ID)
+		}
 		log.Errorf("send message: %#v, session: %s", msg, session.Stat())
 		return nil, err
 	}
